@@ -12,14 +12,19 @@ Theorem C15_full_teardown : forall cli h o out, app cli h = Some (o, out) ->
 Proof. exact ends_with_full_teardown. Qed.
 Print Assumptions C15_full_teardown.
 
-Theorem C15_reverse_order : forall cli h o out, app cli h = Some (o, out) ->
+(* ... including the callbacks that callbacks register during the teardown: LIFO *)
+Theorem C15_lifo : forall cli h o out, app cli h = Some (o, out) -> td_ids o = run_order (items h).
+Proof. exact callbacks_lifo. Qed.
+Print Assumptions C15_lifo.
+
+Theorem C15_reverse_order : forall cli h o out, app cli h = Some (o, out) -> no_kids (items h) ->
   td_ids o = rev (cb_ids (items h)).
 Proof. exact callbacks_reverse_order. Qed.
 Print Assumptions C15_reverse_order.
 
 Theorem C15_exactly_once : forall cli h o out, app cli h = Some (o, out) ->
-  NoDup (cb_ids (items h)) ->
-  NoDup (td_ids o) /\ (forall id, In id (td_ids o) <-> In id (cb_ids (items h))).
+  NoDup (all_ids (items h)) ->
+  NoDup (td_ids o) /\ (forall id, In id (td_ids o) <-> In id (all_ids (items h))).
 Proof. exact callbacks_exactly_once. Qed.
 Print Assumptions C15_exactly_once.
 
@@ -96,10 +101,10 @@ Print Assumptions C15_callback_argument.
 
 (* non-vacuity: a concrete history of each kind *)
 Example C15_example_cli :
-  app true [Reg 0 true; Svc 0; Reg 1 false; Started; Reg 2 true; RunReturn (RInt 5)] =
-  Some ([Td 2 ANone; Td 1 ANoArg; SvcCancelled 0; Td 0 ANone], OExit 5).
+  app true [Reg 0 true []; Svc 0; Reg 1 false [(7%nat, true); (8%nat, false)]; Started; Reg 2 true []; RunReturn (RInt 5)] =
+  Some ([Td 2 ANone; Td 1 ANoArg; Td 8 ANoArg; Td 7 ANone; SvcCancelled 0; Td 0 ANone], OExit 5).
 Proof. vm_compute. reflexivity. Qed.
 Example C15_example_crash :
-  app false [Reg 0 true; Svc 0; Svc 1; Started; Crash 0] =
+  app false [Reg 0 true []; Svc 0; Svc 1; Started; Crash 0] =
   Some ([SvcCancelled 1; Td 0 ACancelled], ORaised (XCrash 0)).
 Proof. vm_compute. reflexivity. Qed.
